@@ -484,8 +484,21 @@ func (p *Posix) DeleteBucket(_ context.Context, bucket string) error {
 		return err
 	}
 
-	// Remove the bucket
-	err = os.RemoveAll(bucket)
+	// Remove the bucket. An upload may have completed since the emptiness
+	// check: only the gateway's own temporary directory is removed
+	// recursively, the bucket directory itself with rmdir, which fails if
+	// anything was published in the meantime.
+	err = os.RemoveAll(filepath.Join(bucket, metaTmpDir))
+	if err != nil {
+		return fmt.Errorf("remove bucket temp dir: %w", err)
+	}
+	err = os.Remove(bucket)
+	if errors.Is(err, syscall.ENOTEMPTY) || errors.Is(err, syscall.EEXIST) {
+		return s3err.GetAPIError(s3err.ErrBucketNotEmpty)
+	}
+	if errors.Is(err, fs.ErrNotExist) {
+		return s3err.GetAPIError(s3err.ErrNoSuchBucket)
+	}
 	if err != nil {
 		return fmt.Errorf("remove bucket: %w", err)
 	}
